@@ -50,7 +50,15 @@ func kindOf(o any) string {
 }
 
 func (c *IClient) begin(verb string, obj any, name string, note string) (*Call, error) {
-	call := &Call{Verb: verb, Kind: kindOf(obj), Name: name, Note: note}
+	return c.beginCall(&Call{Verb: verb, Kind: kindOf(obj), Name: name, Note: note})
+}
+
+func (c *IClient) beginSel(verb string, obj any, sel string) (*Call, error) {
+	return c.beginCall(&Call{Verb: verb, Kind: kindOf(obj), Sel: sel})
+}
+
+func (c *IClient) beginCall(call *Call) (*Call, error) {
+	verb, name := call.Verb, call.Name
 	if c.Quiet > 0 {
 		return call, nil
 	}
@@ -120,7 +128,19 @@ func (c *IClient) Get(ctx context.Context, key client.ObjectKey, obj client.Obje
 }
 
 func (c *IClient) List(ctx context.Context, list client.ObjectList, opts ...client.ListOption) error {
-	call, err := c.begin("list", list, "", "")
+	lo := &client.ListOptions{}
+	lo.ApplyOptions(opts)
+	var sel []string
+	if lo.Namespace != "" {
+		sel = append(sel, "ns="+lo.Namespace)
+	}
+	if lo.FieldSelector != nil && !lo.FieldSelector.Empty() {
+		sel = append(sel, lo.FieldSelector.String())
+	}
+	if lo.LabelSelector != nil && !lo.LabelSelector.Empty() {
+		sel = append(sel, lo.LabelSelector.String())
+	}
+	call, err := c.beginSel("list", list, strings.Join(sel, ","))
 	if err != nil {
 		return err
 	}
